@@ -264,22 +264,27 @@ CLAIMED = {
     ),
     "C11": (
         "Coq proof (exact integer models of the duty-cycle bucket, the write-gap semaphore and the MQTT token bucket with regenerated constants: window bounds for EVERY run by induction / telescoping, lia) + tick-exact correspondence with the real limiter code under a virtual perf_counter + window/order/integrity oracle",
-        "6 theorems in coq/props/C11.v about coq/model/M_Regulate.v (= @limit_duty_cycle's refill/sleep/debit, PortTransport._leak_sem + "
+        "11 theorems in coq/props/C11.v about coq/model/M_Regulate.v and M_RegulateK.v (= @limit_duty_cycle's refill/sleep/debit, PortTransport._leak_sem + "
         "BoundedSemaphore(1), MqttTransport.write_frame; RATE, CAPACITY, the frame-size formula, the gap and the token constants "
         "regenerated, the wrapper's shape checked by the translator): for every run of the wrapper under sequential use (any arrival "
         "times, frame sizes, extra delays) any stretch of consecutive writes hands the radio at most RATE x (first..last write) + one "
         "full bucket + its first frame; the computed sleep covers the shortfall and is not a tick longer; in any stretch of semaphore "
         "events (writes - 2) gaps fit into the time spanned by its ticks; an accepted MQTT write waits at most 1 s (over-budget ones "
         "are dropped), what any run accepts is covered by tokens in hand + refill + 1 s of debt, and the token invariant is preserved. "
-        "PARTIAL: with CONCURRENT callers the duty-cycle bound (with K frames for K pending writes), 'written once, unaltered' and "
-        "'in order' are not theorems -- decided by the oracle (order is refuted there: known finding). Tie: ~450 (thorough ~1800) "
+        "CONCURRENT callers (M_RegulateK: every call is an arrival instant -- top-up, decision -- and a write instant -- debit --, arbitrarily "
+        "interleaved, a write delayed for any time beyond its computed sleep, at most K calls pending at once, K ANY number): the level never falls "
+        "below -(K-1) frames (invariant by induction over event lists with ghost bookkeeping of what others debited since a caller looked; the floor "
+        "is reached, computed witness) and ANY stretch of ANY run hands the radio at most RATE x span + one bucket + one frame per call pending at its "
+        "start + (K-1) frames (potential argument). PARTIAL: 'written once, unaltered' and 'in order' are not theorems -- decided by the oracle "
+        "(order is refuted there: known finding). Tie: every real concurrent interleaving (~1000 writes per quick run) is a run of the concurrent "
+        "model and every write finds EXACTLY the model's level in the closure's own bits_in_bucket; ~450 (thorough ~1800) "
         "admissions of sequential arrival patterns on the real chain vs the model's schedule, equal to the tick; the semaphore's "
         "release/write events are a valid run of the model; ~1400 MQTT accept/discard decisions and sleeps (exact ties at the discard "
         "threshold excepted, where binary64 is a hair below the exact value).",
         "Trusted: Coq kernel, translator (constants + AST shape check of limit_duty_cycle), harness (virtual loop on a 2^-20 s grid, on "
         "which the implementation's binary64 level arithmetic is exact; time.perf_counter substituted while the module is reloaded). "
         "Not modelled: avoid_system_syncs (wall-clock dependent, inert in the runs), _track_transmit_rate.",
-        "6 (C11)",
+        "11 (C11)",
     ),
     "C06": (
         "Coq proof (the header function over regenerated code tables: echo and reply recognition and their converses for ALL payloads, ids and codes by symbolic case analysis; the failing classes by computed witnesses) + frame-by-frame correspondence of header/rx_header + recognition/near-miss oracle with the protocol FSM's matching rule",
